@@ -111,6 +111,23 @@ func registerIntrinsics(e *Engine) {
 		}
 		return term.BVC(64, uint64(n))
 	}
+	// Inside counts the other live threads that have a frame of a function whose name contains the pattern.
+	I[vrtPath+".Inside"] = func(e *Engine, st *State, th *Thread, fn *ssa.Function, a []Value, in *ssa.Call) Value {
+		sub := constStr(a[0], "Inside pattern")
+		n := 0
+		for _, t := range st.Threads {
+			if t.Exited || t.ID == th.ID {
+				continue
+			}
+			for _, fr := range t.Frames {
+				if fr.Fn != nil && strings.Contains(fr.Fn.String(), sub) {
+					n++
+					break
+				}
+			}
+		}
+		return term.BVC(64, uint64(n))
+	}
 	I[vrtPath+".Symbolic"] = func(e *Engine, st *State, th *Thread, fn *ssa.Function, a []Value, in *ssa.Call) Value {
 		return term.True
 	}
